@@ -66,6 +66,10 @@ CHECKS = [
         "Whole cluster peers (real Cluster + real consensus/raft + hashicorp/raft + BoltDB on tmpfs + pstoremgr + gorpc + DHT on mocknet) go through generated membership histories: bootstrap of 1..4 peers, Join / PeerAdd of staging peers through leaders and followers, PeerRemove of leader / follower / self / absent peers, leave on shutdown, graceful restart, crash + restart on a copy of the folders, partitions, interleaved with (partly overlapping) Pin/Unpin. Oracles: after every successful change, with every link up, all remaining members report the same peerset and it is the one the acknowledged changes lead to (failed calls are resolved by what the members report); add of a present / removal of an absent peer changes nothing and does not fail; the last peer cannot be removed; a joiner lists, when Join returns and at the instant its Ready channel closes, every pin acknowledged before its addition began (register model with overlapping and unacknowledged writes); a ready, connected peer that learns of its removal stops itself within the watch interval plus the shutdown bound and its Raft folder is gone; with re-pinning every pin it held keeps its minimum number of holders among those who stay; Shutdown always returns; a peer that gives up on consensus ends up shut down; after the last fault everything converges and a fresh pin goes through. A panic on a goroutine of the code under test is a violation (process crash). Sampling, not proof.",
         "Tracker, IPFS connector, informer and the monitor transport are models (the monitor keeps a valid metric for every slot and filters by the peer's own consensus peerset). Stream close follows yamux/mplex rather than mocknet (simkit/lenient.go, DESIGN.md §5). The stop-and-clean clause is judged only for peers that were ready, connected and actually received their removal (Raft sends it once, best effort).",
         "DESIGN.md §6 C17", "membersim"),
+    chk("C18", "exploration",
+        "A binary built with the race detector runs one of five worlds around the structures the statement names (pin tracker + operation table; metrics store, checker and pubsub monitor; a whole Cluster facade with the real disk and numpin informers; the informers alone; the CRDT component with its batching queue) while 2-5 caller goroutines execute plan-given sequences of public calls that mostly land in the same instants, and in most plans one caller shuts the component down while the others go on. Violations: a race report, a panic on a goroutine of the code under test, a Shutdown or a caller stuck for minutes of simulated time, an empty or duplicated entry in a returned status / metric / alert / pinset list. The race detector judges by happens-before over the executed accesses, so a report does not depend on the interleaving that happened to run; which accesses execute is decided by the seeded plan. One plan per process (a plan runs exactly as its replay does). Sampling, not proof.",
+        "Consensus, monitor, tracker and IPFS behind the Cluster facade are internally locked models; races wholly inside the harness are machinery trouble (exit 2), not violations. The Shutdown deadlocks of the Cluster found by the C17 world are listed under C17.",
+        "DESIGN.md §6 C18", "racesim"),
     chk("C16", "exploration",
         "The real ipfshttp connector talks to a scripted in-memory IPFS HTTP daemon (installed as http.DefaultTransport) under the fake clock; the plan scripts the behaviour of every HTTP request of the pin-ls / swarm-connect / pin-update / pin-add-with-progress / pin-rm conversation (success, IPFS error body, non-JSON error, transport error, no answer, garbage, progress at chosen gaps then final object / stall / connection drop / X-Stream-Error trailer) for every pin kind and prior daemon state, the first call of each plan being drawn systematically from that product. Oracle: nil implies the daemon's pin table holds (or lacks) the CID in the asked mode at return; failed essential requests surface as errors; nothing is requested when already pinned as asked; unpin of an absent CID succeeds; a stalled pin is abandoned within 2 x PinTimeout + 1 s of the last progress; pin/update only with a recursively pinned source, with unpin=false. Sampling with a systematic component, not proof.",
         "The daemon is a model (go-ipfs error strings and go-ipfs-cmds trailer semantics as read from the vendored sources); a pin/add takes effect with its final stream object unless cancelled; a never-answering pin/update is not generated (the statement lists no such behaviour; the connector has no timeout there).",
@@ -105,6 +109,7 @@ def main():
             {"name": "crdtsim", "path": "/verif/harness/crdtsim", "serves_properties": ["C02", "C07"], "kind_free_text": "real consensus/crdt + go-ds-crdt + ipfs-lite + gossipsub + DHT on mocknet, fault-injecting datastore"},
             {"name": "addersim", "path": "/verif/harness/addersim", "serves_properties": ["C13"], "kind_free_text": "real adder + ipfsadd + single/sharding DAG services + BlockAdder over gorpc on mocknet against recording Cluster/IPFSConnector services with per-(block,destination) faults"},
             {"name": "membersim", "path": "/verif/harness/membersim", "serves_properties": ["C17"], "kind_free_text": "whole cluster peers: real ipfscluster.Cluster on real consensus/raft (hashicorp/raft, BoltDB on tmpfs), pstoremgr, DHT and gorpc on mocknet; membership histories with crash/restart/partition"},
+            {"name": "racesim", "path": "/verif/harness/racesim", "serves_properties": ["C18"], "kind_free_text": "race-detector build: concurrent callers on tracker, metrics store/checker/pubsub monitor, Cluster facade with real informers, CRDT batching, under the fake clock"},
             {"name": "monsim", "path": "/verif/harness/monsim", "serves_properties": ["C09"], "kind_free_text": "real metrics Store/Window/Checker and pubsubmon over gossipsub on mocknet under the fake clock"},
             {"name": "trackersim", "path": "/verif/harness/trackersim", "serves_properties": ["C05", "C06"], "kind_free_text": "real stateless tracker + optracker in a synctest bubble against model pinset and model IPFS daemon"},
         ],
